@@ -5,4 +5,9 @@ impl<S, A> AdaptiveService<S, A> {
     pub(crate) fn model_set_in_flight(&self, n: usize) {
         self.in_flight.store(n, Ordering::Relaxed);
     }
+    /// The service's cached copy of the limit as it was when the service last refreshed it
+    /// (the algorithm, shared with other services of the layer, may have moved since).
+    pub(crate) fn model_set_cached_limit(&self, n: usize) {
+        self.current_limit.store(n, Ordering::Relaxed);
+    }
 }
